@@ -457,8 +457,10 @@ func (d *lifeDriver) seed() error {
 }
 
 // poke changes spec.poke of every parent object (new generation): every hosted
-// controller that is alive has to call its sync hook for it.
+// controller that is alive has to call its sync hook for it.  The related object of the
+// customize hooks is touched as well (its handlers fire).
 func (d *lifeDriver) poke(k int) {
+	d.srv.Env(EnvOp{Op: "touch", ResKey: LifeResources[2], NS: lifeNS, Name: "rel"})
 	for _, rk := range []string{LifeResources[0], LifeResources[1], LifeResources[4]} {
 		rd, _ := d.srv.ResByName(rk)
 		for _, name := range d.parents[rk] {
@@ -517,8 +519,11 @@ func (d *lifeDriver) factory() (refs, subs, handlers []int, ok bool) {
 // called its sync hook for the current generation of each of its parents (or the
 // response timeout expired: recorded as unresponsive), (2) queues are empty, no hook call
 // is in flight, and hook log, request log and LIST/WATCH statistics did not move during a
-// quiet window, (3) the server-side WATCH counts are consistent with the subscriptions of
-// the running instances (wait hint only; on timeout the observation is recorded as is).
+// quiet window, (3) a WATCH stream is open exactly for the resources the factory holds a
+// subscription to (a stream closes a moment after the last Close()); without the
+// white-box view: the WATCH surplus over what the running instances use is the one seen
+// after the previous event (3 s).  These are wait conditions only: on timeout the
+// observation is recorded as it is (settled = false) and TLC judges it.
 func (d *lifeDriver) settle(callsFrom int) lifeObs {
 	respTimeout := 20 * time.Second
 	var obs lifeObs
@@ -824,6 +829,15 @@ func specsForTrace(specs Obj) []interface{} {
 		out = append(out, Obj{"id": id, "t": specs[id]})
 	}
 	return out
+}
+
+// LifeWorkers is the number of workers of every hosted controller (default 2;
+// VERIF_C20_WORKERS overrides it).
+func LifeWorkers() int {
+	if n, err := strconv.Atoi(os.Getenv("VERIF_C20_WORKERS")); err == nil && n > 0 {
+		return n
+	}
+	return 2
 }
 
 var lifeFactories = map[string]func(w *World, srv *Server) LifeAdapter{}
